@@ -567,3 +567,76 @@ def c12_r8(ctx):
     oks = [(bb, idx) for (bb, idx, rv, pl) in f.constructs("std::result::Result", "Ok") if pl["local"] == 0 and bb in r2]
     if oks:
         ctx.viol((f.id, "search-error-ignored"), "a failed search (cycle, self-dependence) can still yield a plan", c.where)
+
+
+@rule("C12.R9", floor=2)
+def c12_r9(ctx):
+    """Only looked-up rules enter the plan: in the search, a frame is taken out of the frame
+    table (`opt_frame.take()`) only at an index that is the search's own starting index or field 0
+    of the target-map entry looked up for a source (an exact match of the source's name).  A frame
+    taken at an index found any other way (a scan of the table, a prefix match) puts a rule into
+    the scope of a goal it is not an ancestor of."""
+    fs = [f for f in sort_fns(ctx.P) if f.constructs(ERR, "CircularDependence")]
+    ctx.need(len(fs) == 1, "the DFS function")
+    f = fs[0]
+    ctx.saw(f)
+    n = 0
+    for c in f.calls:
+        if c.name != "take" or not c.path.startswith("std::option::Option::"):
+            continue
+        ao = f.origins_of_operand(c.args[0])
+        if not (ao and all(o[-1] == ("field", "opt_frame") for o in ao)):
+            continue
+        n += 1
+        ctx.inst("frame taken", c.where)
+        ok = True
+        for o in ao:
+            base = o[:-1]
+            if is_call(base) and "Index" in base[0][3] and len(base) == 1:
+                ix = f.call_at[base[0][2]]
+                io = f.origins_of_operand(ix.args[1])
+                for x in io:
+                    if x[0][0] == "param" and len(x) == 1:
+                        continue
+                    if is_call(x, HM_GET) and x[1:] == (("variant", "Some"), ("field", 0), ("field", 0)):
+                        g = f.call_at[x[0][2]]
+                        if all(m[-1] == ("field", "to_buffer_index") for m in f.origins_of_operand(g.args[0])):
+                            continue
+                    ok = False
+            else:
+                ok = False      # reached through an iteration over the table, not through an index
+        if ok:
+            ctx.ok()
+        else:
+            ctx.viol((f.id, "frame-taken-without-lookup"), "a frame is taken out of the frame table at a position that is not the looked-up owner of a source (it derives from %s): a rule the goal does not depend on is pulled into the plan, and ruler then moves and rebuilds its targets" % sorted(map(fmt_origin, ao))[:1], c.where)
+    ctx.need(n, "frames taken out of the table in the search")
+
+
+@rule("C12.R10", floor=1)
+def c12_r10(ctx):
+    """The recorded position is the position in the plan: the value stored into `final_index`
+    when a frame is finished is the length of the very vector the frame is then appended to and
+    that the result is read from (`frames_in_order`) - a count taken on some other vector (the
+    frames of this search only) binds later sources to the wrong node."""
+    fs = [f for f in sort_fns(ctx.P) if f.constructs(ERR, "CircularDependence")]
+    ctx.need(len(fs) == 1, "the DFS function")
+    f = fs[0]
+    n = 0
+    for b in f.blocks:
+        if b["cleanup"] or b["i"] not in f.live:
+            continue
+        for i, st in enumerate(b["stmts"]):
+            if st["k"] == "assign" and st["place"]["proj"] and st["place"]["proj"][-1].get("name") == "final_index":
+                n += 1
+                ctx.inst("final_index stored", f.where(b["i"], i))
+                vo = f._rv_origins(st["rv"], (), b["i"], i, frozenset())
+                lens = [o for o in vo if is_call(o) and o[0][3].endswith("::len") and len(o) == 1]
+                if not vo or len(lens) != len(vo):
+                    raise AnalysisError("idiom not recognised: final_index in %s is not the length of a vector" % f.id)
+                for o in lens:
+                    src = f.origins_of_operand(f.call_at[o[0][2]].args[0])
+                    if src and all(x[0][0] == "param" and x[-1] == ("field", "frames_in_order") for x in src):
+                        ctx.ok()
+                    else:
+                        ctx.viol((f.id, "final-index-of-other-vector"), "final_index is the length of a vector other than the plan itself (%s): positions are relative to one search, and a source finished in a later search is bound to the wrong node" % sorted(map(fmt_origin, src))[:1], f.where(b["i"], i))
+    ctx.need(n, "the store into final_index")
